@@ -25,7 +25,7 @@ VARIABLES st, l
 tvars == <<st, l>>
 
 NoCur == [ty |-> 0, val |-> NullV, pk |-> <<>>, canonical |-> FALSE, etype |-> "rec", allc |-> TRUE, isref |-> FALSE,
-          cmp |-> FALSE, perm |-> FALSE, extra |-> FALSE, deep |-> FALSE, src |-> ""]
+          cmp |-> FALSE, perm |-> FALSE, extra |-> FALSE, deep |-> FALSE, src |-> "", stopped |-> FALSE]
 NoDone == [has |-> FALSE, ok |-> FALSE, val |-> UnitRV, reps |-> <<>>]
 
 InitSt == [stack |-> <<>>, cur |-> NoCur, made |-> {}, reps |-> <<>>, phase |-> "none", runbad |-> TRUE,
@@ -55,7 +55,7 @@ StartRun(s, e) ==
                 allc |-> (e.dflt = "c" /\ AllOnes(e.script) /\ e.etype = "rec"), isref |-> isref,
                 cmp |-> (~isref /\ e.etype = "rec" /\ ~e.inp.perm /\ ~e.inp.extra /\ ~e.deep), perm |-> (~isref /\ e.inp.perm /\ e.etype = "rec"),
                 extra |-> (~isref /\ e.inp.extra /\ e.etype = "rec"),
-                deep |-> e.deep, src |-> e.src]
+                deep |-> e.deep, src |-> e.src, stopped |-> FALSE]
     IN [s EXCEPT !.stack = <<>>, !.cur = cur, !.made = {}, !.reps = <<>>, !.fnf = {}, !.idp = <<>>, !.phase = "idle", !.runbad = FALSE,
                  !.refev = IF isref THEN <<>> ELSE @, !.pos = 0, !.diverged = FALSE,
                  !.refok = IF isref THEN TRUE ELSE @,
@@ -112,6 +112,7 @@ OnEnter(s, e) ==
         THEN [s EXCEPT !.stack = PushRoot(s.cur), !.phase = "running"]
         ELSE Flag(s, {"CONF"}, "first event is not the root type entered at the origin with the payload")
     ELSE IF s.phase # "running" \/ Len(s.stack) = 0 THEN Flag(s, {"CONF"}, "enter outside a running call")
+    ELSE IF s.cur.stopped THEN Flag(s, {"C03"}, "something further is examined although the error type answered stop and was never told to continue since")
     ELSE
     LET F == Top(s.stack)
         cands == {c \in Candidates(s.stack, s.cur) : c.e = "enter" /\ c.n = e.n}
@@ -141,6 +142,7 @@ OnEnter(s, e) ==
 OnErr(s, e) ==
     IF s.phase # "running" \/ Len(s.stack) = 0 THEN Flag(s, {"CONF"}, "report outside a running call")
     ELSE IF e.id \in s.made THEN Flag(s, {"C01"}, "a report id is used twice")
+    ELSE IF s.cur.stopped THEN Flag(s, {"C03"}, "a new report is produced although the error type answered stop and was never told to continue since")
     ELSE
     LET F == Top(s.stack)
         N == Nodes[F.n]
@@ -149,6 +151,7 @@ OnErr(s, e) ==
         exact == {c \in samek : c.loc = e.loc /\ DetAgrees(c.det, e.det)}
         pick(S) == CHOOSE c \in S : \A d \in S : ObLeq(c.ob, d.ob)
         s1 == [s EXCEPT !.made = @ \cup {e.id}, !.reps = Append(@, ObsDesc(e)), !.nrep = @ + 1,
+                        !.cur = [@ EXCEPT !.stopped = (e.ans = "b")],
                         !.idp = Append(@, [id |-> e.id, ps |-> CASE e.det.k = "missing" -> {"C08"} [] e.det.k = "unknownkey" -> {"C09"}
                                                                   [] e.det.k = "unknownvalue" -> {"C10"}
                                                                   [] e.det.k = "unexpected" /\ IsMapTarget(N) -> {"C06"}      \* a map key that cannot be parsed
@@ -161,7 +164,7 @@ OnErr(s, e) ==
         scalarprops == IF N.c = "scalar" THEN {"C05"} ELSE {}
     IN IF F.ph = "jbad" THEN
             \* the serde_json::Value target recurses without probes: its reports are judged by where they point
-            IF e.det.k = "unexpected" /\ e.loc \in NonFiniteLeaves(F.val, F.loc) THEN Seen([s1 EXCEPT !.stack = AddSince(s.stack, e.id)], {"C04", "C13"})
+            IF e.det.k = "unexpected" /\ e.loc \in NonFiniteLeaves(F.val, F.loc) THEN Seen([s1 EXCEPT !.stack = AddSince(s.stack, e.id)], {"C04", "C13", "C03"})
             ELSE Flag(s1, {"C04", "C13"}, "a serde_json::Value target reports something else than a float that JSON cannot hold, or somewhere else")
        ELSE IF exact # {} THEN Seen([s1 EXCEPT !.stack = AfterErr(s.stack, e.id, pick(exact).ob, e.ans)], {"C04", "C02", "C03"} \cup kindprops \cup tagprops)
        ELSE IF samek # {} THEN
@@ -185,7 +188,8 @@ OnMrg(s, e) ==
         s1 == [s EXCEPT !.nbrk = IF e.ans = "b" THEN @ + 1 ELSE @]
     IN IF F.ph = "jbad" THEN
             (IF Len(e.loc) > Len(F.loc) /\ \E lf \in NonFiniteLeaves(F.val, F.loc) : Len(e.loc) <= Len(lf) /\ SubSeq(lf, 1, Len(e.loc)) = e.loc
-             THEN s1 ELSE Flag(s1, {"C04"}, "a hand-over inside a serde_json::Value target is not located on the way to the faulty float"))
+             THEN [s1 EXCEPT !.cur = [@ EXCEPT !.stopped = (e.ans = "b")]]
+             ELSE Flag(s1, {"C04"}, "a hand-over inside a serde_json::Value target is not located on the way to the faulty float"))
        ELSE IF F.ph \in {"fnm1", "fnm2", "fnmA", "fnm0"} THEN
             \* the error of a user function on its way into the error type
             LET c == CHOOSE x \in Candidates(s.stack, s.cur) : x.e = "mrg" /\ x.ans = e.ans
@@ -199,20 +203,27 @@ OnMrg(s, e) ==
                ELSE IF e.ety # c.ety THEN Flag(s1, {"C11"}, "a conversion error is merged under the wrong error type (field-level vs container)")
                ELSE IF e.loc # c.loc THEN Flag(s1, locprops, "a user function's error is handed over at the wrong location")
                ELSE IF isrep /\ F.fnp.id \in s.made THEN Flag(s1, {"C01", "C11"}, "a user function's error is reported twice")
-               ELSE Seen([s2 EXCEPT !.stack = AfterFnMrg(s.stack, e.ans)], {"C11", "C04", "C01", "C03"})
-       ELSE IF F.ph # "merge" THEN
-            IF F.brk \/ F.ph = "fin" THEN Flag(s1, {"C03"}, "a hand-over happens although nothing was returned to hand over after the stop")
-            ELSE Flag(s1, {"C01", "C11"}, "an error is handed over that no child returned")
-       ELSE IF ~SameBag(e.other, F.kidids) THEN Flag(s1, {"C01"}, "the error handed over is not the error the child returned")
-       ELSE IF e.loc # F.kidloc THEN Flag(s1, {"C04"}, "the hand-over location is not the child's own position")
-       ELSE IF e.ety # F.ety THEN Flag(s1, {"C11"}, "a child's error is merged under another error type than the container's")
-       ELSE Seen([s1 EXCEPT !.stack = AfterMrg(s.stack, e.ans)], {"C04", "C01", "C03"} \cup (IF F.kidety # F.ety THEN {"C11"} ELSE {}))
+               ELSE IF isrep /\ s.cur.stopped THEN Flag(s1, {"C03"}, "a new report is produced although the error type answered stop and was never told to continue since")
+               ELSE Seen([s2 EXCEPT !.stack = AfterFnMrg(s.stack, e.ans), !.cur = [@ EXCEPT !.stopped = (e.ans = "b")]], {"C11", "C04", "C01", "C03"})
+       ELSE
+            LET hs == {c \in Candidates(s.stack, s.cur) : c.e = "mrg" /\ c.ans = e.ans}
+                mine == {c \in hs : SameBag(e.other, c.ids)}
+                c == CHOOSE x \in mine : \A y \in mine : x.ob.i <= y.ob.i
+            IN IF hs = {} THEN
+                    (IF F.brk \/ F.ph = "fin" THEN Flag(s1, {"C03"}, "a hand-over happens although nothing was returned to hand over after the stop")
+                     ELSE Flag(s1, {"C01", "C11"}, "an error is handed over that no child returned"))
+               ELSE IF mine = {} THEN Flag(s1, {"C01"}, "the error handed over is not the error a child returned")
+               ELSE IF e.loc # c.loc THEN Flag(s1, {"C04"}, "the hand-over location is not the child's own position")
+               ELSE IF e.ety # F.ety THEN Flag(s1, {"C11"}, "a child's error is merged under another error type than the container's")
+               ELSE Seen([s1 EXCEPT !.stack = AfterMrg(s.stack, c.ob, e.ans), !.cur = [@ EXCEPT !.stopped = (e.ans = "b")]],
+                         {"C04", "C01", "C03"} \cup (IF F.hand[c.ob.i].ety # F.ety THEN {"C11"} ELSE {}))
 
 \* the finished value handed to `validate` / the field value handed to `map`
 BuiltAgrees(F, v) == ValueAgrees(F, v)
 
 OnCall(s, e) ==
     IF s.phase # "running" \/ Len(s.stack) = 0 THEN Flag(s, {"CONF"}, "user function called outside a running call")
+    ELSE IF s.cur.stopped THEN Flag(s, {"C03", "C11"}, "a user function is called although the error type answered stop and was never told to continue since")
     ELSE
     LET F == Top(s.stack)
         N == Nodes[F.n]
@@ -292,7 +303,7 @@ OnExit(s, e) ==
        ELSE \* error exit
             IF ~bagok THEN Flag(s, {"C01"} \cup KeepGoing(s) \cup LostProps(s, F.since, e.err.ids), "the returned error is not made of exactly the reports made since the call was entered")
             ELSE IF \E c \in cands : ~c.ok THEN Seen(s1, {"C01", "C02", "C03"})
-            ELSE IF F.ph = "merge" /\ F.pend = {} THEN s1          \* a child's error passed on without a hand-over call: nothing is lost
+            ELSE IF F.ph = "work" /\ F.pend # {} /\ \A ob \in F.pend : ob.o = "handover" THEN s1   \* children's errors passed on without a hand-over call: nothing is lost
             ELSE IF F.ph \in {"leafok"} \/ (F.ph = "work" /\ ~F.fail /\ F.pend = {}) THEN
                  Flag(s, ExitProps(N) \cup {"C01"}, "an error is returned for a payload without any fault")
             ELSE Flag(s, {"C02"} \cup PendProps(F), "the container returns before every element / member / field was examined although no stop was answered")
